@@ -63,6 +63,13 @@ CHECKS["C14"] = dict(technique="metamorphic property-based testing: chains of ge
                      note="Trusted: library group equality; lists for adjust_nondelegable are interpreted without the omit-all flag.",
                      ref="DESIGN.md section 4, C14")
 
+CHECKS["C15"] = dict(technique="round-trip property-based testing over generated scheme objects (synthetic keys with arbitrary 32-bit slot indices, all slot counts, both encodings), exhaustive enumeration of the length functions, structured single-element corruptions that checked unmarshal must reject",
+                     note="Trusted: reference points/encodings; observed wire layout; GT fields excluded from the corruption set.",
+                     ref="DESIGN.md section 4, C15")
+CHECKS["C16"] = dict(technique="property-based testing with a recording hash callback: hash inputs of encrypt and decrypt equal each other and the value assembled from public outputs; sk == [s mod r]Q by the reference; negative probes must change the hashed bytes",
+                     note="Trusted: reference group law, library pairing (C01; reference pairing on a subset).",
+                     ref="DESIGN.md section 4, C16")
+
 PENDING = {}
 
 
